@@ -426,6 +426,13 @@ func fuzzPSObjects(r *prng.R, s *out.Sink, dense bool) {
 		req := req
 		guarded(s, "ps/TPS.Sign", "request="+trunc(out.Hex(req), 400), func() { signer.Sign(context.Background(), req) })
 	}
+	// the prover gets partial blind signatures from the signers: mutated ones must be refused, not crash it
+	if part, err := signer.Sign(context.Background(), fx.request); err == nil {
+		for _, x := range mutations(r, part, dense) {
+			x := x
+			guarded(s, "ps/Prover.UnBlind", "partial="+trunc(out.Hex(x), 400), func() { fx.prover.UnBlind(1, x, fx.secret) })
+		}
+	}
 	for _, pr := range mutations(r, fx.proof, dense) {
 		pr := pr
 		guarded(s, "ps/Verifier.Verify", "proof="+trunc(out.Hex(pr), 400), func() { v.Verify(pr) })
@@ -556,6 +563,21 @@ func fuzzBLSVerifier(r *prng.R, s *out.Sink, dense bool) {
 		guarded(s, "bls/Verifier.Verify", "sig="+out.Hex(x), func() { v.Verify(digest, x) })
 		guarded(s, "bls/Verifier.Verify", "digest="+out.Hex(x), func() { v.Verify(x, sig) })
 	}
+	// the combiner gets partial signatures from peers: mutated shares, signer lists that do not fit
+	t2 := &bls.TBLS{Party: 2, Logger: nopLogger{}}
+	t2.Init(parties, 2, func([]byte, bool, uint16) {})
+	t2.SetShareData(d.results[2])
+	sig2, _ := t2.Sign(context.Background(), digest)
+	for _, x := range mutations(r, sig, dense) {
+		x := x
+		guarded(s, "bls/Verifier.AggregateSignatures", "share="+out.Hex(x), func() {
+			if agg, err := v.AggregateSignatures([][]byte{x, sig2}, []uint16{1, 2}); err == nil {
+				v.Verify(digest, agg)
+			}
+		})
+	}
+	// (the signer list is the local caller's argument, not peer input: lists that do not fit the shares are a local
+	// precondition and outside this property)
 	for _, sd := range mutations(r, d.results[1], dense) {
 		sd := sd
 		guarded(s, "bls/SetShareData", "data="+trunc(out.Hex(sd), 300), func() {
